@@ -365,7 +365,12 @@ func runH2(k *kernel.K, focus string) {
 	// Ledger callbacks (C09).
 	report := func(e *H2End) {
 		e.OnWindow = func(what string, stream uint32, got, allowed int) {
-			k.Fail("C09.window_"+what, nil, "%s received %d flow-controlled bytes on %s %d but has granted only %d (initial windows possibly in force %v)", e.Name, got, what, stream, allowed, e.advInit)
+			var tail []string
+			for i := len(e.Recv) - 1; i >= 0 && len(tail) < 14; i-- {
+				ev := e.Recv[i]
+				tail = append([]string{fmt.Sprintf("%s(s%d,%dB)@%d", ev.Kind, ev.Stream, len(ev.Data), ev.Step)}, tail...)
+			}
+			k.Fail("C09.window_"+what, nil, "%s received %d flow-controlled bytes on %s %d but has granted only %d (initial windows possibly in force %v); last frames received: %v", e.Name, got, what, stream, allowed, e.advInit, tail)
 		}
 		e.OnFrameSize = func(ev H2Ev, max int) {
 			k.Fail("C09.max_frame", map[string]string{"changed_while_queued": fmt.Sprint(len(e.advFrame) > 1 || len(e.Sent) > 1)}, "%s received a %d-byte %s frame on stream %d; its maximum frame size in force is %d (%v)", e.Name, ev.FrameLen, ev.Kind, ev.Stream, max, e.advFrame)
@@ -427,8 +432,40 @@ func runH2(k *kernel.K, focus string) {
 				idleChecks++
 				if availStream >= p && availConn >= p {
 					k.Fail("C09.no_strand", nil, "network idle: relay holds %d accepted bytes of stream %d towards %s although %s has granted enough credit for all of them (stream credit %d, connection credit %d)", p, id, rcv.Name, rcv.Name, availStream, availConn)
+				} else if availStream > 0 && availConn > 0 {
+					// credit for part of the accepted data: a receiver that waits for data before it
+					// grants more would otherwise wait for ever
+					k.Fail("C09.no_strand", map[string]string{"credit": "partial"}, "network idle: relay holds %d accepted bytes of stream %d towards %s and delivers none of them although %s has %d bytes of stream credit and %d of connection credit open", p, id, rcv.Name, rcv.Name, availStream, availConn)
 				} else {
 					k.Probe("data_blocked_on_window_at_idle")
+				}
+			}
+			// Frames that are not flow-controlled (trailers, RST_STREAM, PRIORITY, PUSH_PROMISE) wait
+			// for nothing but the DATA sent before them on their stream.
+			for _, id := range streamsOf(snd.Sent) {
+				nonData, bytesBefore := 0, 0
+				recvNon := 0
+				for _, e := range rcv.Recv {
+					if e.Stream == id && (e.Kind == "headers" || e.Kind == "push" || e.Kind == "rst" || e.Kind == "priority") {
+						recvNon++
+					}
+				}
+				for _, e := range snd.Sent {
+					if e.Stream != id || !(e.Kind == "data" || e.Kind == "headers" || e.Kind == "push" || e.Kind == "rst" || e.Kind == "priority") {
+						continue
+					}
+					if e.Kind == "data" {
+						bytesBefore += len(e.Data)
+						continue
+					}
+					if nonData == recvNon {
+						// the first such frame the receiver has not got yet
+						if got[id] >= bytesBefore {
+							k.Fail("C09.no_strand", map[string]string{"kind": "not_flow_controlled"}, "network idle: relay holds a %s frame of stream %d towards %s although every DATA byte sent before it (%d) has been delivered; frames that are not flow-controlled must not wait for window (stream credit %d)", e.Kind, id, rcv.Name, bytesBefore, minInit+rcv.GrantStream[id]-rcv.RecvFlow[id])
+						}
+						break
+					}
+					nonData++
 				}
 			}
 		}
